@@ -128,6 +128,7 @@ Section SignerFacts.
       2:{ rewrite app_length. assert (length unhashed <= length cu)%nat.
           { unfold cu. clear -Wu1. induction unhashed as [|s l IH]; [cbn; lia|]. cbn [flat_map length]. rewrite app_length.
             pose proof (subp_emit_length_pos s). inversion Wu1; subst. specialize (IH H3). lia. } lia. }
+      rewrite Nat.eqb_refl. cbn [negb].
       f_equal. f_equal. f_equal.
       (* the kept raw region is the emitted area *)
       replace (be 2 (Z.of_nat (length ch)) ++ ch ++ be 2 (Z.of_nat (length cu)) ++ cu ++ tail)
